@@ -6,6 +6,7 @@ import (
 	"github.com/nyaruka/goflow/flows"
 	"github.com/nyaruka/goflow/flows/actions"
 	"github.com/nyaruka/goflow/zzverif"
+	"time"
 )
 
 func verifMarshal(v any) string {
@@ -107,7 +108,7 @@ func VerifC02_Transparent() {
 // characters, '<', '&': JSON string escaping), a contact with name, language,
 // a URN and the last-seen time of a msg trigger, the received input —
 // survives marshal -> read -> marshal and resumes identically.
-// cover: restored-equal, resumed-equal, escaped-character
+// cover: restored-equal, resumed-equal, escaped-character, seen-before
 func VerifC02_Values() {
 	n := 1
 	if zzverif.Thorough() {
@@ -128,6 +129,11 @@ func VerifC02_Values() {
 	eng := verifEngine(10, 10)
 	contact := flows.NewEmptyContact(sa, verifAsciiName("contact-name"), "eng", nil)
 	contact.AddURN("twitter:bob", nil)
+	if zzverif.Choice("contact-seen-before", 2) == 1 {
+		// (the trigger's contact and the session's contact are clones: state shared between them diverges after a restart)
+		contact.SetLastSeenOn(time.Date(2018, 6, 25, 9, 0, 0, 0, time.UTC))
+		zzverif.Cover("seen-before")
+	}
 	zzverif.ResetEnv()
 	sess, _, err := eng.NewSession(sa, verifTrigger(sa, contact))
 	zzverif.Assert(err == nil && sess.Status() == flows.SessionStatusWaiting, "setup: session not waiting")
